@@ -87,10 +87,31 @@ def gen_case(rng):
             suffix = ".journal" if fixtures.kind_of(name) == "journal" else ".evtx"
             plain_len = len(fixtures.load(name))
         corrupt = None
-        if rng.random() < 0.25:
+        r = rng.random()
+        if r < 0.25:
             cut = rng.randrange(max(1, len(data) // 8), len(data))
             data = data[:cut]
             corrupt = "truncated@%d" % cut
+        elif r < 0.40:
+            # a well-formed container around damaged content: extraction succeeds, then the journal / event-log reader
+            # rejects (or half-reads) the extracted copy -- the copy must be removed all the same
+            plain = fixtures.load(name) if name != "genj" else plain
+            how = rng.choice(("cut", "cut", "zero_header", "garbage"))
+            if how == "cut":
+                k = rng.choice((0, 1, 100, 4096, len(plain) // 2, max(0, len(plain) - 1)))
+                bad = plain[:k]
+            elif how == "zero_header":
+                bad = bytes(rng.choice((8, 64, 4096))) + plain[rng.choice((8, 64, 4096)):]
+            else:
+                bad = bytes(rng.getrandbits(8) for _ in range(rng.choice((10, 5000))))
+            if len(bad) > 2_000_000:
+                bad = bad[:2_000_000]
+            if cont == "tar":
+                data = world.to_tar([("m" + suffix, bad, 1600000000)], ("ustar", "gnu", "pax")[variant % 3])
+            else:
+                data, _ = world.random_container(rng, cont, bad, 1600000000, "m" + suffix)
+            plain_len = len(bad)
+            corrupt = "content_%s(%d bytes)" % (how, len(bad))
         path = "%d_%s%s.%s" % (i, name, suffix, cont) if cont != "tar" else "%d_%s.tar" % (i, name)
         files.append(core.FileSpec(path, data, 1600000000 + i))
         descr.append({"path": path, "fixture": name, "container": cont, "variant": variant, "corrupt": corrupt,
@@ -254,8 +275,10 @@ def run_case(seed, i, tier):
             if tr.prints and tr.prints[0][0] <= s0:
                 cr.probes["signal_while_printing"] += 1
         cr.faults["process_exit_with_live_threads"] += 1 if len(tr.finished) < len(tr.threads) else 0
-        if any(d.get("corrupt") for d in descr):
+        if any((d.get("corrupt") or "").startswith("truncated") for d in descr):
             cr.faults["extraction_fails_midway(truncated_stream)"] += 1
+        if any((d.get("corrupt") or "").startswith("content_") for d in descr):
+            cr.faults["extracted_copy_rejected_by_reader(damaged_content)"] += 1
         cr.nontrivial_keys.append(core.derive(0, "%s|%s|%s" % (scn.digest(), plan_used.signals, tr.decision_hash())))
         vs = evaluate(res)
         for (cls, detail) in vs:
@@ -380,7 +403,7 @@ def minimise(rp, cls):
 
 
 RULE = ("one case = 1..3 compressed/archived journal or evtx sources (shipped NoEvents.evtx, Kernel-PnP evtx, "
-        "Ubuntu22 journal, generated journals of 0..150 entries; containers gz/bz2/xz/lz4/tar; 25% truncated so extraction fails half-way), optionally a text "
+        "Ubuntu22 journal, generated journals of 0..150 entries; containers gz/bz2/xz/lz4/tar; 25% truncated so extraction fails half-way, 15% well-formed containers around damaged content so the reader rejects the extracted copy), optionally a text "
         "source; a base run without signal plus SIGINT delivered at step k for k in a stratified sample of the "
         "temp-file life cycle (quick) or every k in 0..N (thorough), 15% with a second SIGINT; plus runs in which "
         "TMPDIR fills up after N bytes (ENOSPC, N on 0/1/64KiB edges/random) or stdout's reader goes away after N bytes "
